@@ -335,9 +335,14 @@ impl KotoVm {
         self.frame_mut().execution_barrier = true;
 
         // Run the chunk
+        let sequence_builders = self.sequence_builders.len();
+        let string_builders = self.string_builders.len();
         let result = self.execute_instructions();
         if result.is_err() {
             self.pop_frame(KValue::Null)?;
+            // Discard any sequences or strings that were under construction
+            self.sequence_builders.truncate(sequence_builders);
+            self.string_builders.truncate(string_builders);
         }
 
         // Reset the register stack back to where it was at the start of the run
@@ -1126,7 +1131,14 @@ impl KotoVm {
                 catch_offset,
             } => {
                 let catch_ip = self.ip() + catch_offset as u32;
-                self.frame_mut().catch_stack.push((arg_register, catch_ip));
+                let sequence_builders = self.sequence_builders.len();
+                let string_builders = self.string_builders.len();
+                self.frame_mut().catch_stack.push((
+                    arg_register,
+                    catch_ip,
+                    sequence_builders,
+                    string_builders,
+                ));
             }
             TryEnd => {
                 self.frame_mut().catch_stack.pop();
@@ -3710,9 +3722,15 @@ impl KotoVm {
         error.extend_trace(self.instruction_frame());
 
         while let Some(frame) = self.call_stack.last() {
-            match frame.catch_stack.last() {
-                Some((error_register, catch_ip)) if allow_catch => {
-                    return Ok((*error_register, *catch_ip));
+            match frame.catch_stack.last().copied() {
+                Some((error_register, catch_ip, sequence_builders, string_builders))
+                    if allow_catch =>
+                {
+                    // Discard any sequences or strings that were under construction when the
+                    // error was thrown.
+                    self.sequence_builders.truncate(sequence_builders);
+                    self.string_builders.truncate(string_builders);
+                    return Ok((error_register, catch_ip));
                 }
                 _ => {
                     if frame.execution_barrier {
@@ -4011,7 +4029,8 @@ struct Frame {
     // When returning to this frame, the register that should receive the return value
     pub return_value_register: Option<u8>,
     // A stack of catch points for handling errors
-    pub catch_stack: Vec<(u8, u32)>, // catch error register, catch ip
+    // catch error register, catch ip, sequence builder count, string builder count
+    pub catch_stack: Vec<(u8, u32, usize, usize)>,
     // True if the frame should prevent execution from continuing after the frame is exited.
     // e.g.
     //   - a function is being called externally from the VM
